@@ -188,4 +188,24 @@ def r10_3_reports_not_deduplicated(repo: Repo, rep: Report):
     rep.check("R10.3", "logger if allow_duplicate else logger_unique" in src(lf), ml, lf, "logger_for: unique logger only when allow_duplicate is False", "logger selection changed")
 
 
-RULES = [r10_1_cut_report_pairing, r10_2_loop_logs_reported, r10_3_reports_not_deduplicated]
+def r10_4_cache_published_before_complete(repo: Repo, rep: Report):
+    rep.rule("R10.4", "a shared cache entry filled by a generator is published only when complete (or carries a completeness marker)")
+    m, cf = repo.fn("__main__._compute_frontier")
+    pubs = [s for s in cf.body if isinstance(s, ast.Assign) and isinstance(s.targets[0], ast.Subscript) and src(s.targets[0].value) in ("frontier_states", "ctx.frontier_states") and isinstance(s.value, ast.Name)]
+    if not pubs:
+        raise AnalysisError("R10.4: publication of the frontier cache not found in _compute_frontier")
+    for pub in pubs:
+        lst = pub.value.id
+        fills = [c for c in body_walk(cf) if isinstance(c, ast.Call) and dotted(c.func) == f"{lst}.append"]
+        in_yield_loop = [c for c in fills if any(isinstance(a, (ast.For, ast.While)) and any(isinstance(y, ast.Yield) for y in ast.walk(a)) for a in m.ancestors(c))]
+        first_fill = min((c.lineno for c in in_yield_loop), default=None)
+        early = first_fill is not None and pub.lineno < first_fill
+        # a consumer can tell partial from complete only if a completion marker is written after the producing loops
+        marker = any(isinstance(s2, (ast.Assign, ast.Expr)) and s2.lineno > max((c.lineno for c in fills), default=0) and ("complete" in src(s2) or "done" in src(s2)) for s2 in cf.body)
+        rep.check("R10.4", not early or marker, m, pub, f"{src(pub)}  (list filled inside a yielding loop from line {first_fill})", "the cache entry is visible to get_frontier() while it is still being filled: when the consumer abandons the generator (--early-exit, --width) a later test silently reuses a partial frontier and can report a clean PASS")
+    mg, gf = repo.fn("__main__.get_frontier")
+    ok = "ctx.frontier_states.get(depth)" in src(gf)
+    rep.check("R10.4", ok, mg, gf, "get_frontier returns the cached list when present", "frontier lookup changed")
+
+
+RULES = [r10_1_cut_report_pairing, r10_2_loop_logs_reported, r10_3_reports_not_deduplicated, r10_4_cache_published_before_complete]
